@@ -82,6 +82,8 @@ def load_code(self):
     tea_decipher(data, key)
     self.bufpos += padsize
     obj = xmarshal._FastUnmarshaller(struct.pack("<%dL" % intsize, *data))
+    # nested code objects are encrypted too: keep using our loader for them
+    obj.dispatch = self.dispatch
     code = obj.load_code()
     co_code = patch(code.co_code)
     if PYTHON3:
@@ -283,6 +285,9 @@ def loads(s):
     with our decoding version.
     """
     um = xmarshal._FastUnmarshaller(s)
+    # Override the code loader for this unmarshaller only; the class-level
+    # table is shared with every other xdis.marsh.loads() call.
+    um.dispatch = dict(um.dispatch)
     um.dispatch[xmarshal.TYPE_CODE] = load_code
     return um.load()
 
